@@ -28,6 +28,7 @@ Definition genesis_run (c : val) : val :=
   VL (snd (fold_left (fun (acc : state * list val) (ov : val) =>
                         let (s, out) := acc in
                         if vI (vnth 0 ov) =? 8 then (restart s, out ++ [VL [VI 0; enc_state (restart s)]])
+                        else if vI (vnth 0 ov) =? 11 then (s, out ++ [VL [VI 1; enc_state s]])
                         else let (s', code) := step s (dec_op ov) in (s', out ++ [VL [vNat code; enc_state s']]))
                      (vL (vnth 2 c)) (init_state p tokens, []))).
 
@@ -114,7 +115,7 @@ Definition det_run (c : val) : val :=
   let tokens := map dec_token (vL (vnth 1 c)) in
   VL (snd (fold_left (fun (acc : state * list val) (ov : val) =>
                         let (s, out) := acc in
-                        if vI (vnth 0 ov) =? 9 then (s, out ++ [VL [VI 1; enc_state s]])
+                        if (vI (vnth 0 ov) =? 9) || (vI (vnth 0 ov) =? 11) then (s, out ++ [VL [VI 1; enc_state s]])
                         else if vI (vnth 0 ov) =? 10 then (s, out ++ [VL [VI 0; enc_state s]])
                         else let (s', code) := step s (dec_op ov) in (s', out ++ [VL [vNat code; enc_state s']]))
                      (vL (vnth 2 c)) (init_state p tokens, []))).
